@@ -37,7 +37,7 @@
 
 #if defined(__SANITIZE_ADDRESS__)
 // sanitizer builds: a report ends the worker with a recognisable exit code; leaks are not part of any property
-extern "C" const char *__asan_default_options() { return "detect_leaks=0:exitcode=88:allocator_may_return_null=1:malloc_context_size=12"; }
+extern "C" const char *__asan_default_options() { return "detect_leaks=0:exitcode=88:allocator_may_return_null=1:malloc_context_size=12:handle_abort=1"; }
 extern "C" const char *__ubsan_default_options() { return "print_stacktrace=1:halt_on_error=1:exitcode=89"; }
 #endif
 
